@@ -48,9 +48,33 @@ var histValues = []string{"", "Ann /Lee/", "3 Sep 1943", "Sydney", "M", "F", "x"
 func genHistoryCase(prop, tier string, r *rand.Rand) *Case {
 	o := GraphOpts{People: 1 + r.IntN(6), DeathProb: 0.5, BaseYear: 1800, Span: 150, Sources: r.IntN(2), UIDProb: 0.3,
 		ExtraEvents: true, BackRefs: r.IntN(2) == 0}
+	// an event recorded twice with different details (two sources disagree)
+	repeatEvents := func(g *Graph) {
+		for _, p := range g.People {
+			switch r.IntN(6) {
+			case 0:
+				p.Events = append(p.Events, Event{Tag: pick(r, []string{"BIRT", "RESI", "DEAT"}), Date: GenDate(r, 1850+r.IntN(60))},
+					Event{Tag: pick(r, []string{"BIRT", "RESI"}), Place: pick(r, placePool)})
+			case 1:
+				p.Events = append(p.Events, Event{Tag: "BIRT", Date: GenDate(r, 1850+r.IntN(60))}, Event{Tag: "BIRT", Place: pick(r, placePool)})
+			case 2:
+				// nothing is known about the birth
+				var kept []Event
+				for _, e := range p.Events {
+					if e.Tag != "BIRT" {
+						kept = append(kept, e)
+					}
+				}
+				p.Events = kept
+			}
+		}
+	}
 	g := GenGraph(r, o)
 	if len(g.Families) == 0 && len(g.People) > 0 {
 		g.Families = append(g.Families, &Family{Ptr: "F1", Husb: g.People[0].Ptr})
+	}
+	if r.IntN(2) == 0 {
+		repeatEvents(g)
 	}
 	c := &Case{Prop: prop, Engine: "history", Docs: []string{g.Text()}}
 	sessions := 1
@@ -58,7 +82,11 @@ func genHistoryCase(prop, tier string, r *rand.Rand) *Case {
 		sessions = 2
 		o2 := o
 		o2.People = 1 + r.IntN(4)
-		c.Docs = append(c.Docs, GenGraph(r, o2).Text())
+		g2 := GenGraph(r, o2)
+		if r.IntN(2) == 0 {
+			repeatEvents(g2)
+		}
+		c.Docs = append(c.Docs, g2.Text())
 	}
 	n := 1 + r.IntN(6)
 	if tier == "thorough" {
@@ -72,7 +100,7 @@ func genHistoryCase(prop, tier string, r *rand.Rand) *Case {
 		"fam.setwife.nil", "fam.sethusbandptr", "fam.setwifeptr", "fam.addchild", "ind.addname", "ind.addbirth", "ind.adddeath", "ind.setsex"}
 	reads := []string{"read.nodeswithtag", "read.families", "read.individual", "read.family", "read.pointer", "read.all"}
 	ros := []string{"ro.warnings", "ro.string", "ro.compare", "ro.surrounding", "ro.comparenodes", "ro.deepcopy", "ro.shallowcopy", "ro.filter",
-		"ro.publish", "ro.query", "ro.diffpage"}
+		"ro.publish", "ro.query", "ro.diffpage", "ro.merge", "ro.mergenodes"}
 	// swarm: operation mix varies per case
 	wEdit, wRead, wRO := 1+r.IntN(4), r.IntN(3), r.IntN(3)
 	cfg := &HistoryCfg{CheckEveryStep: r.IntN(4) > 0}
@@ -669,6 +697,46 @@ func applyReadOnly(t *testing.T, cr *CaseResult, prop string, ss *session, other
 			return false, ""
 		}
 		guard(func() { nd.ShallowCopy() })
+	case "ro.merge":
+		// merging copies the nodes of both inputs out into a third document
+		right := doc
+		if other != nil {
+			right = other.doc
+		}
+		inSim(func() {
+			o := gedcom.NewIndividualNodesCompareOptions()
+			o.Jobs = jobs
+			gedcom.MergeDocumentsAndIndividuals(doc, right, gedcom.EqualityMergeFunction, o)
+		})
+	case "ro.mergenodes":
+		a, b := nthIndividual(doc, op.A), nthIndividual(doc, op.B)
+		if other != nil {
+			b = nthIndividual(other.doc, op.B)
+		}
+		if op.C%2 == 0 {
+			// the interesting shape: the right side has several children that
+			// are equal to each other (two births) and the left side has none
+			bd := doc
+			if other != nil {
+				bd = other.doc
+			}
+			for _, x := range doc.Individuals() {
+				if len(x.Births()) == 0 {
+					a = x
+					break
+				}
+			}
+			for _, x := range bd.Individuals() {
+				if len(x.Births()) >= 2 && x != a {
+					b = x
+					break
+				}
+			}
+		}
+		if a == nil || b == nil {
+			return false, ""
+		}
+		guard(func() { gedcom.MergeNodes(a, b, gedcom.NewDocument()) })
 	case "ro.deepcopy":
 		nodes, _ := allNodes(doc)
 		nd := nthNode(nodes, op.A)
